@@ -150,3 +150,79 @@ contract(
                "live-in variables configlist, r_start, r_stop, r_step, rep = 0, r_start_index, r_stop_index, nrw = 1, deltas, tmp_array",
     note="one replica, one reweighting factor; lengths, configuration numbers, bounds and stride symbolic",
 )
+
+
+# ---------------------------------------------------------------------------------------------------
+# _read_flow_obs: configuration numbers from the trajectory numbers, thermalisation offset, r_start / r_stop positions
+
+def _flow_sel_slice(mod, fnode):
+    """inside the per-file loop: from `configlist.append([tr // steps // dtr_cnfg ...])` to the r_stop handling"""
+    for node in ast.walk(fnode):
+        if isinstance(node, ast.For) and isinstance(node.target, ast.Tuple) and "files" in ast.dump(node.iter):
+            body = node.body
+            start = end = None
+            for i, st in enumerate(body):
+                if isinstance(st, ast.Expr) and isinstance(st.value, ast.Call) and "configlist" in ast.dump(st.value.func) and "dtr_cnfg" in ast.dump(st.value) and start is None:
+                    start = i
+                if isinstance(st, ast.If) and "r_stop" in ast.dump(st.test):
+                    end = i
+            if start is not None and end is not None:
+                return body[start:end + 1]
+    from pyvc.sym import CheckerError
+    raise CheckerError("contract no longer binds: configuration-number block of _read_flow_obs not found")
+
+
+def _flow_norm_at(a, i):
+    tl = a.traj_list
+    first = _fd(_fd(At(tl, 0), a.steps), a.dtr_cnfg)
+    shift = Ite(first > 1, first - 1, 0)
+    return _fd(_fd(At(tl, i), a.steps), a.dtr_cnfg) - shift
+
+
+def _flow_sel_post(a, r):
+    tl = a.traj_list
+    n = Len(tl)
+    new = _one(r.configlist) if not isinstance(r.configlist, CList) else r.configlist.items[-1]
+    start, stop = _one(r.r_start_index), _one(r.r_stop_index)
+    rs, re_ = _one(a.r_start), _one(a.r_stop)
+    return {
+        "configuration number = trajectory // steps // dtr_cnfg, first one moved to 1 after thermalisation":
+            And(Len(new) == n, ForAll(0, n, lambda i: At(new, i) == _flow_norm_at(a, i))),
+        "start index": (start == 0) if rs is None else And(start >= 0, start < n, At(new, start) == rs),
+        "stop index": (stop == n - 1) if re_ is None else And(stop >= 0, stop < n, At(new, stop) == re_),
+    }
+
+
+def _flow_gen(rng, case):
+    n = rng.randint(2, 9)
+    steps = rng.choice([1, 2, 5])
+    dtr = rng.choice([1, 1, 2])
+    first = rng.choice([1, 2, 7]) * steps * dtr
+    tl = [first + i * steps * dtr for i in range(n)]
+    norm = [t // steps // dtr for t in tl]
+    if norm[0] > 1:
+        norm = [c - (norm[0] - 1) for c in norm]
+    rs = [None] if case["r_start"] == "none" else [rng.choice(norm + [norm[-1] + 3])]
+    re_ = [None] if case["r_stop"] == "none" else [rng.choice(norm + [norm[0] - 2])]
+    return dict(traj_list=tl, steps=steps, dtr_cnfg=dtr, configlist=[], r_start=rs, r_stop=re_, rep=0, r_start_index=[], r_stop_index=[])
+
+
+contract(
+    OQCD + "::_read_flow_obs", name=OQCD + "::_read_flow_obs[configuration numbers and r_start / r_stop]", props=["C17"],
+    slice=_flow_sel_slice,
+    params=dict(traj_list=Custom(lambda n, c, s: IdlList(min_len=2).make(n, c, s), shapes=lambda b: list(range(2, b + 1)),
+                                 native=lambda v, ev: [int(ev(x)) for x in v.items]),
+                steps=Int(lo=1), dtr_cnfg=Int(lo=1),
+                configlist=Custom(lambda n, c, s: CList([], "list"), native=lambda v, ev: []),
+                r_start=_opt_int("r_start"), r_stop=_opt_int("r_stop"), rep=Const(0),
+                r_start_index=Custom(lambda n, c, s: CList([], "list"), native=lambda v, ev: []),
+                r_stop_index=Custom(lambda n, c, s: CList([], "list"), native=lambda v, ev: [])),
+    writes=("configlist", "r_start_index", "r_stop_index"),
+    raises=[("Exception", lambda a: Or(
+        False if _one(a.r_start) is None else Not(Exists(0, Len(a.traj_list), lambda i: _flow_norm_at(a, i) == _one(a.r_start))),
+        False if _one(a.r_stop) is None else Not(Exists(0, Len(a.traj_list), lambda i: _flow_norm_at(a, i) == _one(a.r_stop)))))],
+    ensures=_flow_sel_post,
+    native_slice=True, gen=_flow_gen, crosscheck=False, refute=False,
+    slice_note="inside the per-file loop of _read_flow_obs: from `configlist.append([tr // steps // dtr_cnfg for tr in traj_list])` to the "
+               "r_stop handling; live-in variables traj_list, steps, dtr_cnfg, configlist, r_start, r_stop, rep = 0, r_start_index, r_stop_index",
+)
